@@ -84,16 +84,13 @@ Record scope : Type := mkScope {
   s_out : list expr;            (* output, back first *)
   s_ops : list oper }.          (* operators, back first *)
 
+(* state.beforePairToken is not a field: it is written by pushPair/popPair and read only by attachPair
+   directly after popPair, where it equals the popped scope's s_before *)
 Record pstate : Type := mkState {
   st_prev : option ptok;        (* prevToken *)
-  st_beforePair : option ptok;  (* state.beforePairToken *)
   st_cur : scope;               (* scopedStates.back() *)
   st_rest : list scope }.       (* the enclosing scopes *)
 
-Definition set_out (st : pstate) (o : list expr) : pstate :=
-  mkState (st_prev st) (st_beforePair st) (mkScope (s_before (st_cur st)) o (s_ops (st_cur st))) (st_rest st).
-Definition set_ops (st : pstate) (o : list oper) : pstate :=
-  mkState (st_prev st) (st_beforePair st) (mkScope (s_before (st_cur st)) (s_out (st_cur st)) o) (st_rest st).
 Definition outs (st : pstate) := s_out (st_cur st).
 Definition opsk (st : pstate) := s_ops (st_cur st).
 
@@ -223,7 +220,7 @@ Definition applyFaster (st : pstate) (next : option ptok) (o : oper) : option (p
     match popFaster (prevIsStart st) o' (opsk st) (outs st) with
     | None => None
     | Some (stk, out) =>
-      Some (mkState (st_prev st) (st_beforePair st) (mkScope (s_before (st_cur st)) out (o' :: stk)) (st_rest st), o')
+      Some (mkState (st_prev st) (mkScope (s_before (st_cur st)) out (o' :: stk)) (st_rest st), o')
     end
   end.
 
@@ -279,12 +276,11 @@ Definition attachPair (before : option ptok) (out : list expr) : option (list ex
 Definition step (st : pstate) (tok : ptok) (next : option ptok) : option pstate :=
   match tok with
   | PAtom a =>
-    let st1 := set_out st (EAtom a :: outs st) in
-    Some (mkState (Some tok) (st_beforePair st1) (st_cur st1) (st_rest st1))
+    Some (mkState (Some tok) (mkScope (s_before (st_cur st)) (EAtom a :: outs st) (opsk st)) (st_rest st))
   | POp o =>
     if is (op_type o) ot_pairStart then
       (* pushPair(prevToken); pushOperator *)
-      Some (mkState (Some tok) (st_prev st) (mkScope (st_prev st) [] [o]) (st_cur st :: st_rest st))
+      Some (mkState (Some tok) (mkScope (st_prev st) [] [o]) (st_cur st :: st_rest st))
     else if is (op_type o) ot_pairEnd then
       (* pushOperator; popPair: the scope's left-overs are appended to the enclosing scope; closePair; attachPair *)
       match st_rest st with
@@ -298,14 +294,14 @@ Definition step (st : pstate) (tok : ptok) (next : option ptok) : option pstate 
         | Some (stk, out) =>
           match attachPair before out with
           | None => None
-          | Some out' => Some (mkState (Some tok) before (mkScope (s_before outer) out' stk) rest)
+          | Some out' => Some (mkState (Some tok) (mkScope (s_before outer) out' stk) rest)
           end
         end
       end
     else
       match applyFaster st next o with
       | None => None
-      | Some (st', o') => Some (mkState (Some (POp o')) (st_beforePair st') (st_cur st') (st_rest st'))
+      | Some (st', o') => Some (mkState (Some (POp o')) (st_cur st') (st_rest st'))
       end
   end.
 
@@ -330,7 +326,7 @@ Fixpoint finish (pis : bool) (stack : list oper) (out : list expr) : option (lis
     end
   end.
 
-Definition init_state : pstate := mkState None None (mkScope None [] []) [].
+Definition init_state : pstate := mkState None (mkScope None [] []) [].
 
 (* expressionParser::parse: None = NULL (error) *)
 Definition sy_parse (toks : list ptok) : option expr :=
